@@ -1,10 +1,21 @@
 """Engine `aperture` (C06): scales.loadbalancer.aperture.ApertureBalancerSink.
 
-Specs: ApertureAbs (oracle), ApertureAbsTrace (batched validation), Aperture (code-shaped,
-heap abstracted to "a least-loaded open active member").
-Direction B: traffic-level histories over long virtual time on the real balancer with mock
-channel sinks and a mock server set; every get/put is an adjust sample observed through the
-published gauges scales.loadbalancer.Aperture.{active,idle,load_average}.
+Specs
+  ApertureAbs       property-level oracle: clauses C06.partition / floor / ceiling / grow / shrink / smoothed /
+                    settles over observables (server set, mock channels, requests, virtual time, the published
+                    gauges scales.loadbalancer.Aperture.{active,idle,load_average}).
+  ApertureAbsTrace  batched validation of real-code traces against ApertureAbs (every verdict comes from here).
+  Aperture          code-shaped model (heap abstracted to "a least-loaded open active member"; idle / pending /
+                    total / abstract EMA / jitter / open-completion callbacks as in the code), ApertureAbs in
+                    lock-step; safety invariants and, for steady traffic under weak fairness, eventually-always (InBand or Pinned).
+  ApertureTrace     binding of Aperture.tla to the code: the projection of the real object after every driver
+                    operation must be a successor of the model operation (existential over the abstracted heap
+                    order); a mismatch is DRIFT, never a violation.  (Run by replay_behaviours: the heap order is
+                    abstract in the model, so TLC behaviours cannot be forced onto the real heap; the code is made
+                    to follow the model instead.)
+Direction B: traffic-level histories over long virtual time on the real balancer with mock channel sinks and a mock
+server set; every get/put is an adjust sample observed at the publication point VarzReceiver.VARZ_DATA.
+random in scales.loadbalancer.{base,heap,aperture} is scripted (seeded, logged); time is the virtual loop clock.
 """
 import os
 import random
@@ -668,7 +679,7 @@ def _gen_impl_script(rng, idx):
     else:
       ops.append(['opendone', rng.randint(0, 3), rng.choice([1, 1, 1, 0])])
   return {'min_size': min_size, 'max_size': max_size, 'band': list(band), 'members': members,
-          'jitter': jitter, 'rseed': rng.randint(0, 1 << 30), 'ops': [['auto', 0]] + ops, 'impl': 1, 'noquiet_auto': 1}
+          'jitter': jitter, 'rseed': rng.randint(0, 1 << 30), 'ops': [['auto', 0]] + ops, 'impl': 1}
 
 
 def replay_behaviours(prop, tier, seed):
